@@ -1,11 +1,16 @@
 import Model.OMap
 import Spec.OMap
+import Proofs.C20Sites
+import Generated.C20MapRanges
+import Generated.C20PkgState
 import Drivers.Common
 /-! `vm_c20`: line protocol over `Model.OMap` / `Spec.OMap`.
 
   omap <TAB> <op> <op> …       ops: s<key>=<int>  (Set)   d<key>  (Delete)     keys: any text without space/=
   spec <TAB> <ops>             same, evaluated by the reference specification
     → range=<k>:<v>,…  len=<n>  get=<k>:<v|->|…  idx=<i>:<k>:<v>|<i>:-|…  stop=<k>:<v>,…
+  bad                          → the regenerated sites / cells that the classification table does not
+                                 put in order (what makes the `decide` obligations fail), `-` if none
   where get probes the keys a b c d e, idx probes -1 … len+1, and stop is what a `Range`
   callback sees that returns false at the first key `b`.
 -/
@@ -41,8 +46,18 @@ def toSpecOp : Op K V → Spec.OMap.Op K V
   | .set k v => .set k v
   | .delete k => .delete k
 
+def showBad : String :=
+  let bs := (C20Sites.badSites C20Sites.table C20Sites.KnownSites Generated.C20MapRanges.sites).map
+    (fun s => s!"site {s.file} {s.fn} range {s.expr} #{s.ord} ({repr s.summary})")
+  let bc := (C20Sites.badCells C20Sites.cells C20Sites.KnownCells Generated.C20PkgState.cells).map
+    (fun c => s!"cell {c.pkg}.{c.name}")
+  let sh := Generated.C20MapRanges.shape.map (fun s => s!"shape {s}")
+  let all := bs ++ bc ++ sh
+  if all.isEmpty then "-" else " ; ".intercalate all
+
 def handle (line : String) : String :=
   match line.splitOn "\t" with
+  | ["bad"] => showBad
   | ["omap", ops] =>
       match parseOps ops with
       | some ops =>
